@@ -179,11 +179,13 @@ def run_batch(job):
     async def pre(hass):
         for c in cases:
             hass.states.async_set("pyscript.c18_%s" % c["spec"]["pid"], "5")
+            hass.states.async_set("pyscript.c18b_%s" % c["spec"]["pid"], "0")
 
     async def body(w):
         hass, loop = w.hass, w.loop
         root = w.pdir
         from custom_components.pyscript.global_ctx import GlobalContextMgr
+        from custom_components.pyscript.state import State
         foreign = []
 
         class H(logging.Handler):
@@ -254,12 +256,28 @@ def run_batch(job):
                                       "foreign": len(foreign), "loopexc": len(loop_exc), "foreign_sample": foreign[:2] + loop_exc[:2]})
                 # bystanders: a function in the same file, a function in another file
                 w.logs.clear()
+                left = []          # what the file registered above the entry and is still there
+                if hass.services.has_service("pyscript", "svcb_%s" % pid):
+                    left.append("service")
+                if hass.bus.async_listeners().get("evb_%s" % pid):
+                    left.append("bus-listener")
+                if any(("c18b_%s" % pid) in k for k in State.notify):
+                    left.append("state-subscription")
                 hass.bus.async_fire("evb_%s" % pid, {})
+                hass.states.async_set("pyscript.c18b_%s" % pid, "1")
+                if "service" in left:
+                    try:
+                        await hass.services.async_call("pyscript", "svcb_%s" % pid, {}, blocking=True)
+                    except Exception:  # noqa: BLE001
+                        pass
                 hass.bus.async_fire("ev_by18", {})
                 await w.settle()
                 recs = w.take()
                 loaded = sorted(n for n in GlobalContextMgr.contexts if pid in n)
-                results[c["id"]] = {"steps": steps, "by_same": ran(recs, "bystander", pid), "by_other": min(ran(recs, "bystander-file", "a"), ran(recs, "bystander-file", "z")),
+                same = [ran(recs, "bystander", pid), ran(recs, "bystander-svc", pid), ran(recs, "bystander-st", pid)]
+                # runtime fault: all three must still serve (min = 1); load-time fault: none may (max = 0)
+                results[c["id"]] = {"steps": steps, "by_same": max(same) if e == "load" else min(same), "by_same_detail": same, "left": left,
+                                    "by_other": min(ran(recs, "bystander-file", "a"), ran(recs, "bystander-file", "z")),
                                     "loaded": loaded, "root": root}
         finally:
             logging.getLogger().removeHandler(fh)
@@ -336,7 +354,7 @@ def to_case(x):
                       "integration": n["integration"], "foreign": s["foreign"] + s["loopexc"]})
     return {"id": x["id"], "entry": x["entry"], "sub": x["sub"], "units": units, "entry_unit": x["entry_unit"],
             "cpy": strip_frames(x["cpy"]) if x["cpy"] else [], "obs": obs, "steps": steps,
-            "by_same": x["contain"]["by_same"], "by_other": x["contain"]["by_other"],
+            "by_same": x["contain"]["by_same"], "by_other": x["contain"]["by_other"], "left": len(x["contain"]["left"]),
             "main_loaded": ("file." + pid) in x["contain"]["loaded"],
             "nmodfail": sum(1 for u in units if u["kind"] == "module" and u["id"] != x["entry_unit"])}
 
@@ -383,8 +401,11 @@ def gen_cases(ctx):
                                       "masked": masked, "family": "positions"})
     # every link kind on a small fixed shape (so that each known deviation is exercised in every run)
     feats = [["wrapper", "func"], ["samename", "method"], ["func", "samename", "func"], ["classbody", "func"], ["import", "func"], ["func", "import"],
-             ["nested", "method"], ["method", "wrapper"], ["func", "lambda"]]
+             ["nested", "method"], ["method", "wrapper"], ["func", "lambda"],
+             ["func", "func", "try:none"], ["method", "func", "try:none@entry"], ["func", "nested", "try:none"]]
     for i, kinds_ in enumerate(feats):
+        none_at = [x for x in kinds_ if x.startswith("try:")]
+        kinds_ = [x for x in kinds_ if not x.startswith("try:")]
         for entry in ("load", "service-func", "trigger-func") if not ctx.quick else (("load", "service-func", "trigger-func")[i % 3],):
             k += 1
             base = c18gen.gen_spec(r, "c%dx" % k, masked=False, entry=entry, depth=len(kinds_))
@@ -393,6 +414,11 @@ def gen_cases(ctx):
                 lk["kind"] = kd if kd != "lambda" else "func"
                 lk["try"] = "-"
             base["entry_try"] = "-"
+            if none_at:          # `raise X from None` in a handler: at the entry or at the first link
+                if none_at[0].endswith("@entry"):
+                    base["entry_try"] = "none"
+                else:
+                    base["links"][0]["try"] = "none"
             n = c18gen.Program(c18gen.scaffold(copy.deepcopy(base)), -1).nslots
             for pos in range(n):
                 sp = copy.deepcopy(base)
@@ -500,6 +526,7 @@ def selftest(ctx, recs, rejected):
     for x in loads[:4]:
         add(x, "load-others", lambda y: y["contain"].__setitem__("by_other", 0))
         add(x, "load-still-serves", lambda y: y["contain"].__setitem__("by_same", 1))
+        add(x, "load-service-left", lambda y: y["contain"].__setitem__("left", ["service"]))
         add(x, "load-loaded", lambda y: y["contain"]["loaded"].append("file." + y["pid"]))
     if len(bad) < 30:
         raise MachineryFailure("selftest: too few recordings to corrupt (%d)" % len(bad))
@@ -589,6 +616,13 @@ def main(ctx):
     for rj in res.rejects:
         for fl in rj["frames"] + rj["contain"]:
             ctx.cov["per_deviation"][fl] = ctx.cov["per_deviation"].get(fl, 0) + 1
+    ctx.cov["handler_kinds"] = {}
+    for x in recs:
+        for h in [x["case"]["spec"]["entry_try"]] + [lk["try"] for lk in x["case"]["spec"]["links"]]:
+            ctx.cov["handler_kinds"][h] = ctx.cov["handler_kinds"].get(h, 0) + 1
+    ctx.cov["load_cases_with_registrations_above_the_fault"] = sum(1 for x in recs if x["entry"] == "load")
+    if ctx.cov["handler_kinds"].get("none", 0) < 5:
+        raise MachineryFailure("no `raise ... from None` handlers generated")
     masked = [x for x in recs if x["case"]["masked"]]
     ctx.cov["masked_space"] = {"cases": len(masked), "rejected": sum(1 for x in masked if x["id"] in rejected and
                                                                     not (x["sub"] == "dm" and x["entry"].startswith("trigger-func")))}
